@@ -125,9 +125,15 @@ class _Gen:
         # explicit loop indices: @outer(1)/@outer(0) and @inner(1)/@inner(0) in the natural order
         if r.random() < 0.25 and (form == "two" or inner2):
             self.features.add("explicit-index")
+            # either order is used in OCCA's own translator tests: (1 outside, 0 inside) is what OKL assigns by itself,
+            # (0 outside, 1 inside) maps the outermost loop to the x dimension
+            rev = r.random() < 0.5
+            if rev:
+                self.features.add("explicit-index-outermost-is-0")
+            ix = ("(0)", "(1)") if rev else ("(1)", "(0)")
             if form == "two":
-                out = out.replace("++oa; @outer)", "++oa; @outer(1))").replace("++ob; @outer)", "++ob; @outer(0))")
-            self.explicit_inner = inner2
+                out = out.replace("++oa; @outer)", "++oa; @outer%s)" % ix[0]).replace("++ob; @outer)", "++ob; @outer%s)" % ix[1])
+            self.explicit_inner = ix if inner2 else False
         else:
             self.explicit_inner = False
         # a regular loop between the @outer loop and the @inner loops: the phases run twice
@@ -162,7 +168,7 @@ class _Gen:
                 self.features.add("implicit-barrier")
             if inner2:
                 self.features.add("inner2")
-                ix = ("(1)", "(0)") if self.explicit_inner else ("", "")
+                ix = self.explicit_inner if self.explicit_inner else ("", "")
                 out += ind + "  for (int ia = 0; ia < %d; ++ia; @inner%s) {\n" % (I // 2, ix[0])
                 out += ind + "    for (int ib = 0; ib < 2; ++ib; @inner%s) {\n" % ix[1]
                 iexpr, pad = "(ia * 2 + ib)", ind + "      "
